@@ -1,7 +1,7 @@
 """C14: fuel shuffling conserves the inventory and keeps the core's lookup tables truthful."""
 import itertools
 
-from symx.core import AND, OR, NOT, ITE, CLOSE, Sym
+from symx.core import AND, OR, NOT, IMPLIES, ITE, CLOSE, Sym
 from symx.engine import harness
 from symx import shims
 
@@ -27,7 +27,9 @@ STUBS = ["composites.np / component.np / blocks.np / assemblies.np / structuredG
          "shim", "component.float -> identity on proxies",
          "operator: a stub object exposing .r and .cs (FuelHandler only reads these)",
          "core.stationaryBlockFlagsList derived from cs['stationaryBlockFlags'] with the three lines of "
-         "Core.processLoading (processLoading itself needs full blueprints)"]
+         "Core.processLoading (processLoading itself needs full blueprints)",
+         "assemblies stored in the spent fuel pool from the start are put there with SpentFuelPool.add and registered "
+         "with Core.regenAssemblyLists (what armi.testing.loadTestReactor does for the pool of the reference reactor)"]
 
 # Guarded obligations: candidate genuine defects found by these harnesses (set a flag to False to see the violation).
 # Plain-Python reproductions (full-core mini reactor from harness/_util_C13.py, assemblies of (grid plate, fuel) blocks,
@@ -52,7 +54,9 @@ KNOWN_DEFECT_moveTo_leaves_stale_locator_entry = True
 
 CELLS = [(0, 0), (1, 0), (0, 1), (2, -1)]
 TYPES = ("grid plate", "fuel", "plenum")
-STAT = {"none": [], "gridplate": ["GRID_PLATE"], "two": ["GRID_PLATE", "PLENUM"]}
+# stationary blocks at the bottom (grid plate), at the top (plenum), in the middle (fuel), at bottom and top
+STAT = {"none": [], "gridplate": ["GRID_PLATE"], "two": ["GRID_PLATE", "PLENUM"], "plenum": ["PLENUM"],
+        "fuel": ["FUEL"]}
 NUCS = ("U235", "FE")
 QUEUE, POOL, GONE = "queue", "pool", "gone"
 
@@ -64,7 +68,8 @@ class Op:
 class World:
     """The real objects plus a reference model of where every assembly and block ought to be."""
 
-    def __init__(self, ctx, track, stat, symmetry="full", nfresh=1, cells=CELLS, types=None, sharedStatHeight=False):
+    def __init__(self, ctx, track, stat, symmetry="full", nfresh=1, cells=CELLS, types=None, sharedStatHeight=False,
+                 nstored=0):
         self.ctx = ctx
         self.track = track
         cs = Settings().modified(newSettings={CONF_TRACK_ASSEMS: track, CONF_STATIONARY_BLOCK_FLAGS: STAT[stat]})
@@ -76,30 +81,47 @@ class World:
         o.r, o.cs = self.r, cs
         self.fh = FuelHandler(o)
         self.asms, self.h, self.n = [], {}, {}
-        ntot = len(cells) + nfresh
+        ntot = len(cells) + nfresh + nstored
+        stored = list(range(len(cells) + nfresh, ntot))
         for ai in range(ntot):
             ty = TYPES if types is None else types[ai]
             hs = [ctx.real("h_%d_%d" % (ai, k), 1.0, 400.0) for k in range(len(ty))]
-            if sharedStatHeight:
-                # stationary blocks are meant to have equal heights (fuelHandlers only warns otherwise): one symbol
-                # for all grid plates avoids forking on the comparison of their top elevations
-                hs[0] = self.asms[0][0].getHeight() if ai else hs[0]
+            if sharedStatHeight and ai:
+                # stationary blocks are meant to sit at equal elevations (fuelHandlers only warns otherwise): one
+                # symbol per axial level, for all assemblies, up to the top-most stationary block avoids forking on
+                # the comparison of their top elevations (grid plate only: just the grid-plate height is shared)
+                a0 = self.asms[0]
+                top = max([0] + [k for k, b in enumerate(a0) if any(b.hasFlags(f) for f in flags)])
+                for k in range(min(top + 1, len(hs))):
+                    hs[k] = a0[k].getHeight()
             a = U.mk_assembly(ty, heights=hs)
             if ai < len(cells):
                 self.core.add(a, self.core.spatialGrid[cells[ai] + (0,)])
+            elif ai in stored:
+                self.sfp.add(a)
             self.n[ai] = U.inject_densities(ctx, a, "%d" % ai, nucs=NUCS)
             self.h[ai] = hs
             self.asms.append(a)
+        if stored:
+            self.core.regenAssemblyLists()
         # reference model
-        self.where = {ai: (cells[ai] if ai < len(cells) else QUEUE) for ai in range(ntot)}
+        self.where = {ai: (cells[ai] if ai < len(cells) else (POOL if ai in stored else QUEUE)) for ai in range(ntot)}
         self.blocks = {ai: list(a) for ai, a in enumerate(self.asms)}
         self.statIdx = [k for k, b in enumerate(self.asms[0]) if any(b.hasFlags(f) for f in flags)]
+        self.types0 = {ai: [b.getType() for b in a] for ai, a in enumerate(self.asms)}
         self.allBlocks = [b for a in self.asms for b in a]
         self.block0 = {id(b): dict(h=b.getHeight(),
                                    N={(ci, n): c.getNumberDensity(n) for ci, c in enumerate(b) for n in NUCS},
                                    m={n: b.getMass(n) for n in NUCS},
                                    comps=list(b)) for b in self.allBlocks}
         self.total0 = {n: sum(self.block0[id(b)]["m"][n] for b in self.allBlocks) for n in NUCS}
+        # elevations recorded on the blocks when the assemblies were made (Assembly.calculateZCoords)
+        self.z0 = {id(b): (b.p.zbottom, b.p.ztop) for b in self.allBlocks}
+        # the stationary blocks of all assemblies sit at the same elevations (then exchanging them keeps every stack
+        # gap-free; otherwise fuelHandlers warns and the elevations are the caller's business)
+        self.statAligned = AND(*[AND(self.z0[id(a[k])][0] == self.z0[id(self.asms[0][k])][0],
+                                     self.z0[id(a[k])][1] == self.z0[id(self.asms[0][k])][1])
+                                 for a in self.asms[1:] for k in self.statIdx if k < len(a)] + [True])
         self.freshStationaryDischarged = False   # scenario of the two block-name defects
 
     # ---- reference semantics (from the doc strings of the operations)
@@ -143,6 +165,10 @@ class World:
     def m_remove(self, x):
         self.where[x] = POOL if self.track else GONE
 
+    def m_purge(self, x):
+        """removeAssembly(a, discharge=False): deleted, never stored, whatever the tracking option says."""
+        self.where[x] = GONE
+
     def m_add(self, inc, cell):
         self.where[inc] = cell
 
@@ -162,6 +188,7 @@ class World:
                 acts += [("cascade", core[0], None, core[1]), ("cascade", None, core[0], core[1])]
             acts += [("discharge", i, o) for i in out for o in core]
             acts += [("remove", x) for x in core]
+            acts += [("purge", x) for x in core]
             acts += [("add", i, c) for i in out if self.where[i] == QUEUE for c in empty]
         else:
             sub = core[:3]
@@ -174,6 +201,8 @@ class World:
                 acts += [("cascade", core[3], core[1], core[0], core[2])]
             acts += [("discharge", i, o) for i in out[:2] for o in (core[0], core[-1])]
             acts += [("remove", core[0]), ("remove", core[-1])] if core else []
+            # (without tracking a purge and a plain removal are specified alike: one of them is enough here)
+            acts += [("purge", core[len(core) // 2])] if core and self.track else []
             acts += [("add", i, c) for i in out[:1] if self.where[i] == QUEUE for c in empty[:1]]
         return acts
 
@@ -191,6 +220,9 @@ class World:
         elif act[0] == "remove":
             self.core.removeAssembly(A[act[1]])
             self.m_remove(act[1])
+        elif act[0] == "purge":
+            self.core.removeAssembly(A[act[1]], discharge=False)
+            self.m_purge(act[1])
         elif act[0] == "add":
             self.core.add(A[act[1]], self.core.spatialGrid[act[2] + (0,)])
             self.m_add(act[1], act[2])
@@ -208,6 +240,15 @@ class World:
                   len(kids) == len(inCore) and all(any(k is A[ai] for k in kids) for ai in inCore))
         ctx.check("%s: the pool holds exactly the discharged assemblies, each once" % what,
                   len(pool) == len(inPool) and all(any(k is A[ai] for k in pool) for ai in inPool))
+        ctx.check("%s: no assembly is in the core and in the spent fuel pool at once" % what,
+                  not any(k is q for k in kids for q in pool))
+        ctx.check("%s: core, pool, load queue and purged assemblies add up to the assemblies ever made" % what,
+                  len(kids) + len(pool) + len(gone) + len(queue) == len(A) and
+                  len(kids) + len(pool) == len(inCore) + len(inPool))
+        ctx.check("%s: an assembly that was deleted (not stored) is neither in the core nor in the pool" % what,
+                  not any(k is A[ai] for ai in gone for k in kids + pool))
+        ctx.check("%s: the assembly list of core plus pool is what the core reports with includeSFP" % what,
+                  sorted(id(a) for a in core.getAssemblies(includeSFP=True)) == sorted(id(a) for a in kids + pool))
         ctx.check("%s: parents agree with membership" % what,
                   all(A[ai].parent is core for ai in inCore) and all(A[ai].parent is sfp for ai in inPool) and
                   all(A[ai].parent is None for ai in gone + queue))
@@ -268,6 +309,17 @@ class World:
                       len(A[ai]) == len(want) and all(g is w for g, w in zip(A[ai], want)))
             ctx.check("%s: blocks of assembly %d know their parent and axial index" % (what, ai),
                       all(b.parent is A[ai] and int(b.spatialLocator.k) == k for k, b in enumerate(A[ai])))
+            ctx.check("%s: assembly %d is stacked in the original axial order of block types" % (what, ai),
+                      [b.getType() for b in A[ai]] == self.types0[ai])
+            # elevations (stationary blocks aligned): the stack of each assembly is gap-free bottom-up in its current
+            # block order
+            zs, stack = 0.0, []
+            for b in A[ai]:
+                hb = self.block0[id(b)]["h"]
+                stack.append(AND(CLOSE(b.p.zbottom, zs, scale=zs + hb), CLOSE(b.p.ztop, zs + hb, scale=zs + hb)))
+                zs = zs + hb
+            ctx.check("%s: elevations of assembly %d follow its block order without gap or overlap" % (what, ai),
+                      IMPLIES(self.statAligned, AND(*stack + [True])))
         # contents of every block ever made are untouched by the moves
         for bi, b in enumerate(self.allBlocks):
             old = self.block0[id(b)]
@@ -299,21 +351,37 @@ class World:
 
 
 BOUNDS = ("full-core mini reactor, 4 occupied cells (centre, ring 2 x2, ring 3) + 1 fresh assembly + spent fuel pool, "
-          "3 blocks (grid plate / fuel / plenum) per assembly; symbolic: 15 block heights [1,400], 60 number "
-          "densities [0,10], the action of each of K steps (forked over all legal ones); enumerated: trackAssems, "
-          "stationaryBlockFlags in {[], [GRID_PLATE], [GRID_PLATE, PLENUM]}")
+          "(instances with nstored=1: + 1 assembly stored in the pool from the start), "
+          "3 blocks (grid plate / fuel / plenum) per assembly; symbolic: 15 (18) block heights [1,400], 60 (72) number "
+          "densities [0,10], the action of each of K steps (forked over all legal ones: swap, cascade, dischargeSwap "
+          "of a fresh or a stored assembly, removeAssembly with discharge=True and discharge=False, add); enumerated: "
+          "trackAssems, stationaryBlockFlags in {[], [GRID_PLATE], [GRID_PLATE, PLENUM], [PLENUM] (top block), "
+          "[FUEL] (middle block)}")
 
 
 @harness("C14", bounds=BOUNDS + "; K=1 over the full action set (ordered swaps, all 3- and 4-cascades, cascades with None entries, discharge, remove); "
                                 "quick: one shared symbol for all grid-plate heights (no fork on the top-elevation "
                                 "comparison), thorough: independent heights",
          stubs=STUBS, qtimeout_ms=20000, max_paths=3000,
-         instances={"quick": [dict(track=t, stat=s, shared=True) for t in (True, False) for s in ("none", "gridplate")],
+         instances={"quick": [dict(track=t, stat=s, shared=True) for t in (True, False) for s in ("none", "gridplate")] +
+                             # stationary blocks at the top / in the middle / at both ends of the assemblies, and an
+                             # assembly stored in the pool from the start (with and without tracking): reduced actions
+                             # (fresh=False: the fresh assembly is not discharged in; with stationary blocks that
+                             # history lies inside the recorded block-name findings - those instances are thorough)
+                             [dict(track=False, stat="plenum", shared=True, level="reduced", nstored=1, fresh=False),
+                              dict(track=True, stat="two", shared=True, level="reduced", nstored=1, fresh=False),
+                              dict(track=True, stat="fuel", shared=True, level="reduced", nstored=1, fresh=False),
+                              dict(track=False, stat="none", shared=True, level="reduced", nstored=1)],
                     "thorough": [dict(track=t, stat=s, shared=False) for t in (True, False)
-                                 for s in ("none", "gridplate", "two")]})
-def every_single_operation_keeps_the_books(ctx, track, stat, shared):
-    w = World(ctx, track, stat, sharedStatHeight=shared)
-    act = ctx.choice("act0", w.actions("full"))
+                                 for s in ("none", "gridplate", "two")] +
+                                [dict(track=t, stat=s, shared=sh, level="wide", nstored=1) for t in (True, False)
+                                 for s, sh in (("none", False), ("plenum", True), ("fuel", True), ("two", True))] +
+                                [dict(track=t, stat=s, shared=False, level="reduced", nstored=1) for t in (True, False)
+                                 for s in ("plenum", "fuel")]})
+def every_single_operation_keeps_the_books(ctx, track, stat, shared, level="full", nstored=0, fresh=True):
+    w = World(ctx, track, stat, sharedStatHeight=shared, nstored=nstored)
+    acts = [a for a in w.actions(level) if fresh or not (a[0] == "discharge" and w.where[a[1]] == QUEUE)]
+    act = ctx.choice("act0", acts)
     w.apply(act)
     w.check("after %s" % (act,), canary=ctx.canary)
 
